@@ -396,20 +396,15 @@ def check_string_positions(chk, tus):
                        % (label, r_[:80]), 'wasmCWriteModuleFunctionExportsArray:string-literal')
 
 
-def _one_literal(s):
+def _literal_pieces(s):
+    """[contents of each piece] of a string literal written as adjacent pieces ("ab" "cd", which C concatenates after decoding the
+    escapes of each piece - the way to end a hex escape before a hex digit); None if s is not of that form"""
     s = s.strip()
-    if len(s) < 2 or s[0] != '"' or s[-1] != '"':
-        return None
-    return c_literal_bytes(s[1:-1])
-
-
-def _split_two_literals(s):
-    """'"a", "b"' -> (bytes a, bytes b) using C lexing rules, None if malformed"""
-    i = 0
     out = []
+    i = 0
     n = len(s)
     while i < n:
-        while i < n and s[i] in ' ,':
+        while i < n and s[i] in ' \t\n':
             i += 1
         if i >= n:
             break
@@ -422,12 +417,51 @@ def _split_two_literals(s):
             j += 1
         if j >= n:
             return None
-        b = c_literal_bytes(s[i + 1:j])
-        if b is None:
-            return None
-        out.append(b)
+        out.append(s[i + 1:j])
         i = j + 1
-    return tuple(out) if len(out) == 2 else None
+    return out or None
+
+
+def _one_literal(s):
+    pieces = _literal_pieces(s)
+    if pieces is None:
+        return None
+    out = b''
+    for p_ in pieces:
+        b_ = c_literal_bytes(p_)
+        if b_ is None:
+            return None
+        out += b_
+    return out
+
+
+def _split_two_literals(s):
+    """'"a", "b"' -> (bytes a, bytes b) using C lexing rules (each argument may consist of adjacent pieces), None if malformed"""
+    i = 0
+    n = len(s)
+    depth_in = False
+    cut = None
+    while i < n:
+        c = s[i]
+        if depth_in:
+            if c == '\\':
+                i += 1
+            elif c == '"':
+                depth_in = False
+        else:
+            if c == '"':
+                depth_in = True
+            elif c == ',':
+                if cut is not None:
+                    return None
+                cut = i
+        i += 1
+    if cut is None or depth_in:
+        return None
+    a_, b_ = _one_literal(s[:cut]), _one_literal(s[cut + 1:])
+    if a_ is None or b_ is None:
+        return None
+    return (a_, b_)
 
 
 def check_overlapping_memcpy(chk):
